@@ -15,6 +15,7 @@ import (
 	"os"
 	"regexp"
 	"strconv"
+	"strings"
 	"time"
 
 	"github.com/beevik/etree"
@@ -443,6 +444,9 @@ func (req *IdpAuthnRequest) Validate() error {
 	}
 
 	// find the service provider
+	if req.Request.Issuer == nil {
+		return fmt.Errorf("request has no Issuer")
+	}
 	serviceProviderID := req.Request.Issuer.Value
 	serviceProvider, err := req.IDP.ServiceProviderProvider.GetServiceProvider(req.HTTPRequest, serviceProviderID)
 	if err == os.ErrNotExist {
@@ -982,7 +986,10 @@ func (req *IdpAuthnRequest) WriteResponse(w http.ResponseWriter) error {
 func (req *IdpAuthnRequest) getSPEncryptionCert() (*x509.Certificate, error) {
 	certStr := ""
 	for _, keyDescriptor := range req.SPSSODescriptor.KeyDescriptors {
-		if keyDescriptor.Use == "encryption" {
+		// skip descriptors that carry no certificate (text), so that they neither panic
+		// nor shadow a later descriptor that does advertise an encryption key
+		if keyDescriptor.Use == "encryption" && len(keyDescriptor.KeyInfo.X509Data.X509Certificates) != 0 &&
+			strings.TrimSpace(keyDescriptor.KeyInfo.X509Data.X509Certificates[0].Data) != "" {
 			certStr = keyDescriptor.KeyInfo.X509Data.X509Certificates[0].Data
 			break
 		}
